@@ -17,6 +17,9 @@ Trace events (one list per (program, simulation), merged by the parent), all dat
   ["wx", day, method, site, workable, temp, wind, precip, [tLo, tHi, wLo, wHi, pLo, pHi]]
                                                           result of Method.check_weather and the cube
                                                           values at the site's cell (hour Method.HOUR)
+  ["wxcell", day, method, site, lat_idx, lon_idx, site_lat, site_lon, file_lats, file_lons]
+                                                          the weather cell the site is bound to (indices
+                                                          into the weather file's own axis order)
   ["plancost", day, method, {site: site.get_survey_cost(method)}]   emitted before each deploy_crews
   ["repaircost", day, "program"|"natural", amount, emission_id]     increments of EmisInfo cost totals
   ["fuflag", day, schedule_method, kind, site, rate, latest_detection_day, n_detected_rates, site_latest_tagging_day]
@@ -426,6 +429,13 @@ def install_crew_cost_wrappers():
                             float(env[mp.WIND][1]), float(env[mp.PRECIP][0]), float(env[mp.PRECIP][1])]])
         except Exception:
             EVENTS.append(["wx", di(curr_date), self._name, str(site.get_id()), bool(out), None, None, None, None])
+        try:
+            loc = site.get_loc()
+            EVENTS.append(["wxcell", di(curr_date), self._name, str(site.get_id()), int(site.get_weather_lat()),
+                           int(site.get_weather_long()), float(loc[0]), float(loc[1]),
+                           [float(x) for x in shim.WEATHER["lats"]], [float(x) for x in shim.WEATHER["lons"]]])
+        except Exception:
+            pass
         return out
 
     Method.check_weather = check_weather
@@ -481,6 +491,7 @@ def install_sim_wrappers():
       ["rcost", day, g, amount]                   result of RepairableEmission.get_repair_cost
       ["dl", day, method, daylight_hours]         daylight.get_daylight(date) seen by Method.get_daylight_hours
       ["quant", day, true_rate, measured_rate]    DefaultSensor._measure_rate
+      ["qrep", day, method, site, [[group, component, true_rate, measured_rate], ...]]   per completed survey
     """
     from ldar_sim import LdarSim
     from programs.method import Method
@@ -627,6 +638,33 @@ def install_sim_wrappers():
         return orig_dl(self, daylight, max_hours, curr_date)
 
     Method.get_daylight_hours = get_daylight_hours
+
+    # quantification: what every completed survey measured, unit by unit (component-level: one entry per
+    # component of the site in layout order; site-level: one entry with group / component None)
+    #   ["qrep", day, method, site, [[group, component, true_rate, measured_rate], ...]]
+    orig_ss = Method.survey_site
+
+    @functools.wraps(orig_ss)
+    def survey_site_q(self, crew, survey_report, site_to_survey, weather, curr_date):
+        out = orig_ss(self, crew=crew, survey_report=survey_report, site_to_survey=site_to_survey,
+                      weather=weather, curr_date=curr_date)
+        try:
+            rep = out[0]
+            if rep.survey_complete:
+                units = []
+                if rep.equipment_groups_surveyed:
+                    for eg in rep.equipment_groups_surveyed:
+                        for dr in eg.emissions_detected:
+                            units.append([str(dr.equipment_group), str(dr.component), float(dr.true_rate),
+                                          float(dr.measured_rate)])
+                else:
+                    units.append([None, None, float(rep.site_true_rate), float(rep.site_measured_rate)])
+                EVENTS.append(["qrep", di(curr_date), self._name, str(site_to_survey.get_id()), units])
+        except Exception as e:
+            EVENTS.append(["qrep-error", repr(e)])
+        return out
+
+    Method.survey_site = survey_site_q
 
     orig_mr = DefaultSensor._measure_rate
 
